@@ -35,7 +35,9 @@ def frame_keys_allowed(c: Contract) -> set[str]:
     for m in c.modifies:
         if m == "alloc":
             continue
-        if m.startswith("*"):
+        if m.startswith("*") and m[1:] in ("llen", "lel", "dhas", "dval", "dsize"):
+            keys.add(m[1:])
+        elif m.startswith("*"):
             keys.add("f." + m[1:])
         elif m.startswith("list("):
             keys |= {"llen", "lel"}
@@ -90,6 +92,21 @@ def generate(repo: Repo, reg: Registry, c: Contract) -> tuple[list[VC], Verifier
         selfn = fn.args.args[0].arg
         sty = st.loc[selfn].ty
         eng.dyn_class = T.class_of(sty)
+    # well-typed entry heap: every declared field of every object allocated at entry holds a value of its declared type,
+    # and references stored in the entry heap point to objects allocated at entry
+    r_ = z3.Const("r!wt", IntS)
+    from pyvc.engine import cls_of as _cls_of
+
+    for key in sorted(reg.field_types):
+        cname, fld = key.rsplit(".", 1)
+        if cname not in repo.classes:
+            continue
+        fty = eng.ty(reg.field_types[key])
+        if fty.k == "any":
+            continue
+        subs = repo.subclasses(cname)
+        val = z3.Select(st.h("f." + fld), r_)
+        st.pc = st.pc + (z3.ForAll([r_], z3.Implies(z3.And(0 <= r_, r_ < st.alloc, z3.Or([_cls_of(r_) == eng.cid(c) for c in subs])), eng.has_type(val, fty, st))),)
     entry = st.copy()
     st.entry = entry
     entry.entry = entry
